@@ -135,7 +135,17 @@ where
                         f(k, &mut st);
                         let ms = t0.elapsed().as_millis() as u64;
                         if ms >= slow_ms {
-                            eprintln!("SLOW-CASE case={k} ms={ms}");
+                            eprintln!("SLOW-CASE case={k} ms={ms} live_bytes={}", crate::alloc::LIVE.load(Ordering::Relaxed));
+                        }
+                        if k % 512 == 0 || ms >= 300 {
+                            // glibc keeps the high-water mark of every thread's arena: hand freed pages back,
+                            // or a long sweep with a few large cases ends up holding tens of gigabytes
+                            unsafe {
+                                libc::malloc_trim(0);
+                            }
+                        }
+                        if k % 2000 == 0 && std::env::var("VCHECK_MEM").is_ok() {
+                            eprintln!("MEM case={k} live_bytes={}", crate::alloc::LIVE.load(Ordering::Relaxed));
                         }
                     }
                     total.lock().unwrap().merge(st);
